@@ -7,16 +7,23 @@ ID = "C02"
 LEVEL = "proof"
 TRUSTED = dc.TRUSTED
 ASSUMPTIONS = ["reader part here; resumption after the final reply in whole conversations is tied by the conv probe"]
-RULE = ("dr probe: every stream over the tokens {LF.LF, LF.CRLF, CRLF.LF, CR.CR, CRLF.CRLF, 'a', bait line} up to the "
+RULE = ("conv probe: DATA conversations whose bodies contain bait command lines and every terminator look-alike x backend "
+        "{read all, nothing, 1 octet then error, reject, propagate, 5 octets} x size limit {none, |body|-1, |body|, |body|+1} x "
+        "{SMTP, LMTP, LMTP+LMTPSession} followed by marker commands: bait never executed, markers executed once in order; "
+        "dr probe: every stream over the tokens {LF.LF, LF.CRLF, CRLF.LF, CR.CR, CRLF.CRLF, 'a', bait line} up to the "
         "tier's token count, with and without size limit, under 4 read schedules; leftover input compared octet for "
         "octet. non-trivial = the stream contains a terminator look-alike or a bait line")
 THEOREMS = ["C02_only_marker", "C02_eof_means_marker", "C02_lookalikes", "data_monitor_accepts_model"]
 TOK = [b"\n.\n", b"\n.\r\n", b"\r\n.\n", b"\r.\r", b"\r\n.\r\n", b"a", b"MAIL FROM:<bait@x>\r\n", b".\r\n", b"\r\n"]
-nontrivial = lambda case, ans: dc.nontrivial_stream(case)
-signature = dc.signature
-mutate = dc.mutate
-shrink = dc.shrink
+nontrivial = lambda case, ans: dc.nontrivial_stream(case) if case.startswith('dr') else cc.nontrivial(case, ans)
+signature = lambda case, ans: dc.signature(case, ans) if case.startswith('dr') else cc.signature(case, ans)
+mutate = lambda case, rng: dc.mutate(case, rng) if case.startswith('dr') else []
+shrink = lambda case: dc.shrink(case) if case.startswith('dr') else P.shrink_resegment(case)
 KNOWN = {}
+
+
+from vlib.props import convprops as P, convcommon as cc
+_proj = lambda case, ans: cc.project(ans, codes="class", enh=False, drecs="full")
 
 
 def groups(tier, rng):
@@ -26,7 +33,9 @@ def groups(tier, rng):
         for kind in ("all", 1, rng.choice([2, 3, 7, "mixed"])):
             lim = rng.choice([None, None, len(s), max(1, len(s) // 2)])
             enum.append(dc.dr_case(lim, 0, s, cuts(len(s), rng, rng.choice(["one", "rand"])), sched(kind, len(s), rng)))
-    return [Group("dr/lookalikes", enum, theorems=THEOREMS)]
+    conv = P.data_convs(tier, rng, limits=(0, 1))
+    return [Group("dr/lookalikes", enum, theorems=THEOREMS),
+            Group("conv/data-resume", conv, project=_proj, theorems=THEOREMS)]
 
 
 def replay_groups(path):
